@@ -29,7 +29,7 @@ TECHNIQUE = "property-based testing (Hypothesis): differential oracle across bui
 
 
 def cases(tier):
-    return 2400 if tier == "quick" else 320000
+    return 2400 if tier == "quick" else 120000
 
 
 def strategy(hazards):
